@@ -68,6 +68,7 @@ func main() {
 	trace := flag.Bool("trace", false, "trace instructions")
 	verbose := flag.Bool("v", false, "verbose")
 	tags := flag.String("tags", "verif", "build tags")
+	sampleEvery := flag.Int("sample-every", 0, "record every n-th path as an evidence sample")
 	flag.Var(&ov, "overlay", "virtual=real file mapping (repeatable)")
 	flag.Var(&params, "param", "name=int harness parameter (repeatable)")
 	flag.Var(&pats, "pattern", "package pattern to load (repeatable)")
@@ -105,7 +106,7 @@ func main() {
 	loadS := time.Since(t0).Seconds()
 	opts := interp.Options{
 		Workers: *workers, MaxPaths: *maxPaths, MaxViol: *maxViol, MaxSteps: *maxSteps,
-		SolverKind: *solver, Params: pm, Trace: *trace, FalseTwin: *falseTwin, Verbose: *verbose,
+		SolverKind: *solver, Params: pm, SampleEvery: *sampleEvery, Trace: *trace, FalseTwin: *falseTwin, Verbose: *verbose,
 	}
 	if *timeout > 0 {
 		opts.Deadline = time.Now().Add(*timeout)
